@@ -1291,6 +1291,38 @@ def gen_dmptexts(rng, n, nlong):
     return out
 
 
+def gen_wide(rng, n):
+    """eleven and more same-named siblings (two-digit positional indices in the paths), early ones deleted or moved
+    away (they stay in the output marked deleted, and the formatter's own sibling count has to skip them), later ones
+    changed"""
+    out = []
+    for _ in range(n):
+        k = rng.randint(11, 17)
+        L = etree.Element("r")
+        for i in range(k):
+            e = etree.SubElement(L, "a")
+            e.text = "item %d" % i
+            if rng.random() < .3:
+                e.set("i", str(i))
+        R = deepcopy(L)
+        kids = list(R)
+        for e in rng.sample(kids[:5], rng.randint(1, 2)):          # early ones go away or to the end
+            R.remove(e)
+            if rng.random() < .5:
+                R.append(e)
+        for e in rng.sample(list(R)[8:], min(3, len(list(R)) - 8)):      # late ones change
+            r_ = rng.random()
+            if r_ < .4:
+                e.text = (e.text or "") + " changed"
+            elif r_ < .7:
+                e.set("j", "1")
+            else:
+                etree.SubElement(e, "b").text = "new"
+        out.append({"kind": "wide", "left": xml(L), "right": xml(R), "cfg": {"normalize": WS_NONE, "replace": rng.random() < .3, "tt": [], "fmt": []},
+                    "opts": rng.choice([{}, {"fast_match": True}]), "late": False})
+    return out
+
+
 def gen_lines(rng, n):
     """long multi-line text nodes and tails (more than 100 characters on both sides: diff_lineMode), in which
     several separate groups of lines change at once"""
@@ -1361,6 +1393,7 @@ def gen_inputs(run, rng):
     cases += gen_texts(rng, quick)
     cases += gen_prefixes(rng, 30 if quick else 300)
     cases += gen_lines(rng, 5 if quick else 60)
+    cases += gen_wide(rng, 12 if quick else 150)
     cases += gen_dmptexts(rng, 150 if quick else 1500, 4 if quick else 40)
     cases += gen_struct(rng, 500 if quick else 5000)
     cases += gen_texttags(rng, 500 if quick else 5000)
